@@ -57,7 +57,8 @@ theorem registries_restored (cfg : Nat → Cfg) (ops : List Op) (m : Nat) (s' : 
     refine ⟨?_, ?_, ?_, ?_, ?_⟩ <;> intro e he heq
     rotate_left 3
     · have := hI2.fxOwned e he
-      rw [heq, ha] at this; cases this
+      rw [heq] at this
+      simp [up, ha, hs] at this
     · simp only [List.mem_filter] at he
       have h2 := he.2
       simp [ownedBy, heq] at h2
@@ -105,13 +106,22 @@ theorem others_untouched (st st' : St) (op : Op) (h : step st op = some st') :
 
 /-- Config players: after ANY op sequence — whenever the dispatcher of a queue event calls an entry of the mode's config
 players, also from a snapshot of the handler list taken before the mode stopped — nothing is recorded under the context of
-a mode that is not active: what a play leaves behind (light stack entry, show instance, enabled coil) exists only while its
-mode is active, and it is cleared in `_stopped`. -/
+a mode that is neither starting nor active: what a play leaves behind (light stack entry, show instance, enabled coil)
+exists only between the mode's `start` (conditional entries are evaluated and played there) and its `_stopped`, which
+clears it; a stale call changes nothing, and a subscription of a mode that is not running cannot be re-evaluated (it was
+cancelled). -/
 theorem config_player_effects_die_with_mode (cfg : Nat → Cfg) (ops : List Op) (m : Nat)
-    (ha : ((run (init cfg) ops).modes m).active = false) : ∀ e ∈ (run (init cfg) ops).fx, e.owner ≠ m := by
-  intro e he heq
-  have := (run_inv2 _ ops (inv2_init cfg)).fxOwned e he
-  rw [heq, ha] at this; cases this
+    (ha : ((run (init cfg) ops).modes m).active = false) (hs : ((run (init cfg) ops).modes m).starting = false) :
+    (∀ e ∈ (run (init cfg) ops).fx, e.owner ≠ m) ∧
+    (∀ id, step (run (init cfg) ops) (.cfgPlay m id) = some (run (init cfg) ops)) ∧
+    (∀ id on, step (run (init cfg) ops) (.cfgSub m id on) = none) := by
+  refine ⟨?_, ?_, ?_⟩
+  · intro e he heq
+    have := (run_inv2 _ ops (inv2_init cfg)).fxOwned e he
+    rw [heq] at this
+    simp [up, ha, hs] at this
+  · intro id; simp [step, ha]
+  · intro id on; simp [step, up, ha, hs]
 
 /-- the guard of `config_play_callback`: an entry called for a mode that is not active changes nothing at all -/
 theorem stale_config_play_has_no_effect (st : St) (m id : Nat) (ha : (st.modes m).active = false) :
@@ -279,6 +289,16 @@ example :
         .cfgPlay 1 100]
      let s2 := run s1 [.stop 1, .stopped 1, .stoppedCb 1, .cfgPlay 1 0, .cfgPlay 1 1]
      (s1.fx.length, s2.fx.length, s2.bus.length)) = (2, 0, 0) := by
+  decide
+
+/-- a conditional light_player entry (10) is true when the mode starts (played in `start()`), becomes false (removed) and
+true again; the stop clears it -/
+example :
+    (let s1 := run (init exCfg) [.start 1 none false true, .cfgSub 1 10 true]
+     let s2 := run s1 [.started 1, .startedCb 1, .cfgSub 1 10 false]
+     let s3 := run s2 [.cfgSub 1 10 true, .cfgSub 1 110 true, .stop 1, .stopped 1]
+     (s1.fx.length, s2.fx.length, s3.fx.length, (step s3 (.cfgSub 1 10 true)).isSome,
+      (run (init exCfg) [.start 1 none false true, .started 1, .cfgSub 1 10 true]).fx.length)) = (1, 0, 0, false, 1) := by
   decide
 
 /-- a timer of mode 1 is started (periodic task 5) and paused (delay 6); the mode stops inside the pause: both are gone
